@@ -95,7 +95,7 @@ def draw_cfg(st):
     cfg["faulty"] = []
     if on("dest"):
         nf = st.weighted([2, 4, 2, 1], "n-faulty")
-        cfg["faulty"] = [[list(MASKS[st.choose(len(MASKS), "mask")]), st.choose(5, "exc-kind"),
+        cfg["faulty"] = [[list(MASKS[st.choose(len(MASKS), "mask")]), st.choose(6, "exc-kind"),
                           st.choose(2, "before-tap")] for _ in range(nf)]
     cfg["file"] = st.choose(3, "file")            # 0: none, 1: binary, 2: text
     cfg["p_io_error"] = ([0.1, 0.0, 0.5][st.choose(3, "p_io")] if on("io") else 0) if cfg["file"] else 0
